@@ -524,9 +524,7 @@ pub fn classify(prop: &str, group: &Group, input: &Db, st: &EvalStats, summaries
       "C03" => st.max_lat_increases >= 2 && st.lat_improving_rounds >= 2,
       "C04" => (st.agg_groups_ge2 >= 1 || (st.neg_true >= 1 && st.neg_false >= 1)) && st.derived_new >= 1,
       "C05" => st.multi_derived_same_round + st.rederived_later >= 1,
-      "C10" | "C11" => st.ds_rounds_with_new >= 2,
-      // (recursive feeding of trrel_uf relations is excluded by the open findings KF-13 / KF-14)
-      "C12" => st.ds_rounds_with_new >= 1 && st.derived_new >= 4,
+      "C10" | "C11" | "C12" => st.ds_rounds_with_new >= 2,
       _ => st.derived_new >= 1,
    };
    (nontrivial, labels)
